@@ -45,6 +45,14 @@ FORMS = {
     'in-batch': '<dtml-in xs size=2 orphan=0><dtml-var sequence-item>'
                 '</dtml-in>{R}',
     'in-else': '<dtml-in empty>n<dtml-else><dtml-var x></dtml-in>{R}',
+    # text / bytes elements are not namespaces: names of the page that are
+    # also names of str / bytes methods keep their meaning in the body
+    'in-items-outer-names': '<dtml-in xs>{L}<dtml-var title>:<dtml-var upper>'
+                            ':<dtml-var count>:<dtml-var hex>:<dtml-var '
+                            'decode>:<dtml-var sequence-item>{R}</dtml-in>',
+    'in-items-outer-names-batch': '<dtml-in xs size=2 orphan=0><dtml-var '
+                                  'lower>:<dtml-var strip>:<dtml-var '
+                                  'sequence-item>|</dtml-in>',
     'if-body': '{L}<dtml-if t><dtml-var x></dtml-if>{R}',
     'if-else': '<dtml-if f>n<dtml-else>&dtml-x;</dtml-if>{R}',
     'unless': '{L}<dtml-unless f><dtml-var x></dtml-unless>{R}',
@@ -124,7 +132,7 @@ FORMS = {
     'epfs': '{L}%(x)s{R}',
     'epfs-in': '%(in seq)[%(x)s{R}%(in)]',
 }
-MULTI = ('try-else-both', 'try-finally-both', 'try-else-both-hq',
+MULTI = ('in-items-outer-names', 'in-items-outer-names-batch', 'try-else-both', 'try-finally-both', 'try-else-both-hq',
          'if-then-if', 'in-in', 'after-sub-other-enc', 'after-sub-other-enc-hq',
          'after-sub-other-enc-fmt', 'after-sub-other-enc-in',
          'in-batch-inner', 'in-mapping-inner', 'in-sort-inner',
@@ -159,7 +167,8 @@ def render(form, enc, L, R, value):
         y = y.encode(other)
     return t(x=value, seq=[1, 2], xs=[value, value, value], t=1, f=0,
              empty=[], o=Holder(), ox=ox, sub=sub, sub2=sub2, subo=subo,
-             y=y,
+             y=y, title='News', upper='UP', count='C', hex='H', decode='D',
+             lower='low', strip='S',
              ms=[dict(mx=value), dict(mx=value)]), src
 
 
